@@ -17,8 +17,8 @@ func init() {
 	register(&Prop{
 		ID:       "C11",
 		Category: "model_checking",
-		Rule: "streams with 1..3 sync-flush points made by fastgo and compress/* writers (flate, gzip, zlib) over pieces {26 B, 300 B, 5000 B, 70 KB}; released prefix = up to each flush point and up to the end of the stream (incl. trailer); " +
-			"delivery of the prefix in {one call, 1 byte per call, 7 bytes per call}; behaviour after the prefix in {would-block forever, error alone, error together with the last data, unrelated bytes then EOF}; source in {plain io.Reader, bufio 16 / 4096 / 65536}; Read policy in {1, 4096, 1 MiB}; " +
+		Rule: "streams with 1..3 sync-flush points made by fastgo and compress/* writers (flate, gzip, zlib) over pieces {3 B, 26 B, 300 B, 4200 B incompressible, 5000 B, 70 KB}; released prefix = up to each flush point and up to the end of the stream (incl. trailer); " +
+			"delivery of the prefix in {one call, 1, 7, 24, 25 bytes per call}; behaviour after the prefix in {would-block forever, error alone, error together with the last data, unrelated bytes then EOF}; source in {plain io.Reader, bufio 16 / 4096 / 65536}; Read policy in {1, 4096, 1 MiB}; " +
 			"oracle: at the moment the Reader first asks for bytes beyond the prefix, or returns an error, it has already handed out all data encoded before that point (and io.EOF when the prefix is the whole stream, except gzip in multistream mode); 'blocks forever' is modelled by aborting the execution at the first over-read, no clock involved; non-trivial = the prefix encodes at least one byte",
 		Assumptions: []string{"a source that would block is modelled by a sentinel panic at the first Read beyond the released prefix"},
 		Quick:       TierSpec{MaxDev: -1, Shards: 4, ShardDepth: 3, BudgetS: 150},
@@ -43,8 +43,10 @@ func c11Streams(cfg *Cfg) []flushedStream {
 		name string
 		segs []int // piece index per segment; a flush follows each segment but the last
 	}
-	plans := []plan{{"26|300", []int{0, 1}}, {"300|5000|26", []int{1, 2, 0}}, {"70K|26", []int{3, 0}}, {"26|26|26|26", []int{0, 0, 0, 0}}, {"5000|70K", []int{2, 3}}}
-	for _, wk := range []WK{{Kind: "flate", Level: 1}, {Kind: "flate", Level: -2}, {Kind: "flate", Level: 6}, {Kind: "gzip", Level: 2}, {Kind: "gzip", Level: 6}, {Kind: "zlib", Level: 1}, {Kind: "zlib", Level: 6}} {
+	ps = append(ps, []byte("abc"), pieces.Rand(4200, cfg.Seed+4))
+	plans := []plan{{"26|300", []int{0, 1}}, {"300|5000|26", []int{1, 2, 0}}, {"70K|26", []int{3, 0}}, {"26|26|26|26", []int{0, 0, 0, 0}}, {"5000|70K", []int{2, 3}},
+		{"3|3|300", []int{4, 4, 1}}, {"4200rand|3", []int{5, 4}}, {"300|4200rand|300", []int{1, 5, 1}}}
+	for _, wk := range []WK{{Kind: "flate", Level: 1}, {Kind: "flate", Level: -2}, {Kind: "flate", Level: 6}, {Kind: "flate", Level: 0}, {Kind: "flate4k", Level: 2}, {Kind: "gzip", Level: 2}, {Kind: "gzip", Level: 6}, {Kind: "zlib", Level: 1}, {Kind: "zlib", Level: 6}} {
 		for _, useStd := range []bool{false, true} {
 			if useStd && wk.Accelerated() && wk.Kind != "flate" {
 				continue
@@ -61,7 +63,11 @@ func c11Streams(cfg *Cfg) []flushedStream {
 				if err != nil {
 					continue
 				}
-				fs := flushedStream{kind: RK{Kind: wk.Kind, Multi: false}}
+				rkind := wk.Kind
+				if rkind == "flate4k" {
+					rkind = "flate"
+				}
+				fs := flushedStream{kind: RK{Kind: rkind, Multi: false}}
 				ok := true
 				if pi := Guard(func() {
 					for i, pi := range pl.segs {
@@ -142,7 +148,7 @@ func gatedRead(r io.Reader, pol env.ReadPolicy) (out []byte, err error, blocked 
 func c11Harness(cfg *Cfg) func(x *mc.Exec) {
 	streams := c11Streams(cfg)
 	afters := []string{"would-block", "error-alone", "error-with-data", "unrelated-bytes"}
-	chunks := []int{0, 1, 7}
+	chunks := []int{0, 1, 7, 24, 25}
 	bufios := []int{0, 16, 4096, 65536}
 	pols := []env.ReadPolicy{env.PolicyAll, env.Policy4096, env.Policy1}
 	return func(x *mc.Exec) {
